@@ -1,5 +1,5 @@
 """C26 — replacements only happen when they pay for themselves and improve the mempool (specs/Mempool, engine E1 on a real node)."""
-import os, sys
+import collections, json, os, sys
 sys.path.insert(0, os.path.dirname(os.path.abspath(__file__)))
 import vflib, _mempool
 
@@ -14,10 +14,17 @@ META = dict(
          "Rule 3 / Rule 4 / min-relay thresholds (real measured sizes), has a larger-but-lower-feerate replacement, a two-cluster replacement, a "
          "replacement with an unrelated in-pool parent, one that spends what it evicts, prioritisation that moves the thresholds, and - with "
          "-incrementalrelayfee=0 - an equal-fee equal-size replacement that only the strictness of the diagram comparison rejects. Every transition "
-         "is replayed through ProcessTransaction on a real node: verdict, replaced list, resulting pool and modified fees are compared.",
+         "is replayed through ProcessTransaction on a real node: verdict, replaced list, resulting pool and modified fees are compared. "
+         "Packages: Mempool.SubmitPackage (see C29) evaluates a 1-parent-1-child package with conflicts as one replacement (PackageRBFChecks); "
+         "TLC proves the package form of the conditions (evicted = conflicts of both transactions + descendants, total fees pay for the evicted "
+         "and for the package's own relay, no mempool ancestors, <= 100 conflicting clusters for the package as a whole, strictly better diagram) "
+         "on the pkg universe, replayed through ProcessNewPackage. Rule 5 at the node's real bound (MAX_REPLACEMENT_CANDIDATES is a compile-time "
+         "constant): module Rule5 tabulates, over a macro universe of 102 equal singleton pool transactions (a counted class), single replacements "
+         "conflicting with 100 / 101 clusters and packages whose parent conflicts with a and whose child with b clusters, a + b = 100, 101, 102 "
+         "with a, b <= 100 (50+50, 50+51, 51+51, 100+1, 1+100) and a parent of 101; every row is run on a real node holding the 102 transactions.",
     note="SAFE mode: a node that rejects a replacement the model accepts is more conservative, not a violation; an accepted replacement is checked by "
-         "TLC against the necessary conditions in the state it was submitted to. Rule 5's bound of 100 clusters is a constant of the model that the "
-         "bounded universes do not reach. TRUC sibling eviction and package RBF are outside this check.",
+         "TLC against the necessary conditions in the state it was submitted to. Rule 5's bound of 100 clusters is exercised by the macro scenario only (the "
+         "path-cover universes stay below it). TRUC sibling eviction is C27's business.",
     technique="TLA+ spec Mempool + TLC exhaustive; path cover replayed on a real node; replacement conditions evaluated by TLC on observed transitions",
 )
 
@@ -26,15 +33,54 @@ def replay(ctx, path):
     return _mempool.replay(ctx, path)
 
 
+def rule5_table(ctx, binary):
+    """Rule 5 at the real bound: rows of module Rule5 (universe r5) on a node whose pool holds 102 singleton clusters."""
+    upath, mpath, universe, meas = _mempool.prepare(ctx, binary, "r5", "MU_std.cfg")
+    r = ctx.tlc("Mempool", "MC_r5", "MC_r5.cfg", env={"MP_MEASURE": mpath}, workers=1)
+    rows = [json.loads(l) for l in open(r.emit_path)]
+    if len(rows) != r.distinct:
+        raise vflib.InfraError("emitted %d rows for %d distinct states" % (len(rows), r.distinct))
+    seen = {(len(x["txs"]), x["a"] + x["b"], x["ok"]) for x in rows}
+    want = {(1, 100, True), (1, 101, False), (2, 100, True), (2, 101, False), (2, 102, False)}
+    if not want <= seen or not any(len(x["txs"]) == 2 and x["a"] <= 100 and x["b"] <= 100 and min(x["a"], x["b"]) > 1 and x["a"] + x["b"] > 100 for x in rows):
+        raise vflib.InfraError("vacuity: the Rule 5 table no longer sits on the bound (cases seen: %s)" % sorted(seen))
+    res = ctx.run_harness(binary, "rule5", rows, args=[upath], name="rule5")
+    for m in res["mismatches"]:
+        if str(m.get("why", "")).startswith("setup:"):
+            raise vflib.InfraError("Rule 5 macro scenario could not be set up: %s" % m["why"])
+    ctx.evaluations += int(res["summary"]["tests"]); ctx.traces += int(res["summary"]["tests"])
+    ctx.extra["rule5_rows"] = [dict(txs=x["txs"], a=x["a"], b=x["b"], expected=x["why"]) for x in rows]
+    ctx.extra["diverged_conservative"] = ctx.extra.get("diverged_conservative", 0) + int(res["summary"].get("conservative_rows", 0))
+    for x in rows:
+        ctx.nontrivial.add(vflib.digest(["rule5", x["txs"]]))
+    for m in res["mismatches"] + res["aborts"]:
+        if isinstance(m.get("action"), dict):
+            m["action"] = dict(txs=m["action"].get("txs"), a=m["action"].get("a"), b=m["action"].get("b"))     # (the row lists 102 victims)
+    vflib.report_mismatches(ctx, binary, "rule5", res, args=[upath], adapter="mempool", what_prefix="Rule 5 at the bound: ",
+                            key_fn=lambda m, case: "rule5:" + vflib.digest((m.get("action") or {}).get("txs")))
+
+
 def run(ctx):
     binary = ctx.build_adapter("mempool")
     nontrivial = lambda p: any(s.get("rbf") and s["a"][0] == "submit" for s in p["steps"])
+    only = os.environ.get("VERIF_C26_ONLY")
+    if only == "rule5":
+        rule5_table(ctx, binary)
+        return ctx.finish(level="model_checking", exhaustive=True, rule="Rule 5 table only (VERIF_C26_ONLY)")
     if ctx.tier == "quick":
         st = _mempool.run_scenario(ctx, binary, "C26", "rbf", "MC_rbf_c26q.cfg", "MU_std.cfg", nontrivial=nontrivial)
     else:
         st = _mempool.run_scenario(ctx, binary, "C26", "rbf", "MC_rbf_t.cfg", "MU_std.cfg", nontrivial=nontrivial)
         _mempool.run_scenario(ctx, binary, "C26", "chain", "MC_chain_t.cfg", "MU_std.cfg", nontrivial=nontrivial)
     st0 = _mempool.run_scenario(ctx, binary, "C26", "rbf", "MC_rbf0_q.cfg", "MU_incr0.cfg", nontrivial=nontrivial)
+    # package replacements (1-parent-1-child): the package form of the conditions, small scope
+    pk = lambda p: any(s["a"][0] == "pkg" and s["r"]["evict"] for s in p["steps"])
+    stp = _mempool.run_scenario(ctx, binary, "C26", "pkg", "MC_pkg_c26.cfg" if ctx.tier == "quick" else "MC_pkg_t.cfg", "MU_std.cfg", nontrivial=pk)
+    _mempool.need(stp, [("pkg", "ok"), ("pkg", "package RBF failed: insufficient anti-DoS fees")], "C26 packages")
+    if not any(s["a"][0] == "pkg" and len(s["r"]["evict"]) >= 1 and s["r"]["ok"] for p in stp["paths"] for s in p["steps"]):
+        raise vflib.InfraError("vacuity: no accepted package replacement in the bounded model")
+    # Rule 5 at the node's real bound, for transactions and packages
+    rule5_table(ctx, binary)
     _mempool.need(st, [("submit", "ok"), ("submit", "insufficient fee"), ("submit", "replacement-failed"), ("submit", "bad-txns-spends-conflicting-tx"),
                        ("submit", "min relay fee not met"), ("prio", "none")], "C26")
     _mempool.need(st0, [("submit", "replacement-failed"), ("submit", "insufficient fee"), ("submit", "ok")], "C26 incr0")
@@ -46,7 +92,8 @@ def run(ctx):
     ctx.extra["accepted_replacements_by_evicted_count"] = {str(k): v for k, v in sorted(st["replaced"].items())}
     ctx.assumptions += ["bounded scenario: 17-transaction universe on 3 mature base coins, clusters of at most 3 transactions (the brute-force optimum equals the code's)",
                         "min relay and incremental relay feerates 100 sat/kvB (and incremental 0 in the equal-diagram scenario), as passed to the node",
-                        "Rule 5 (100 clusters) is not reachable in the bounded universes"]
+                        "Rule 5: the 102 pool transactions of the macro scenario are a counted class (equal fee, singleton clusters, confirmed inputs: checked "
+                        "by TLC on the universe and by the harness on the node); the verdict only depends on how many of them are conflicted"]
     return ctx.finish(level="model_checking", exhaustive=True,
-                      rule="path cover of every transition of the bounded Mempool graph (submit / prioritise from every reachable pool); non-trivial = "
-                           "distinct paths containing at least one submission that conflicts with the pool")
+                      rule="path cover of every transition of the bounded Mempool graphs (submit / prioritise / package from every reachable pool) and the "
+                           "Rule 5 table; non-trivial = distinct paths containing at least one submission or package that conflicts with the pool, and the table's rows")
